@@ -26,6 +26,7 @@
 package main
 
 import (
+	"errors"
 	"fmt"
 	"hash/fnv"
 	"math/rand"
@@ -694,6 +695,7 @@ func safety(fam string, n int, o *zg.Observed, timedOut bool, c zg.RunCfg, chain
 	}
 	if o.Err != nil {
 		switch {
+		case errors.Is(o.Err, zg.ErrIO) || fam == "io-error": // an I/O error of the reader is reported as it is
 		case !o.IsPE:
 			sum.Mis("zone/hostile:err-type", fmt.Sprintf("error is a %T, not a *dns.ParseError: %v", o.Err, o.Err), cs)
 		case o.PELine == -1:
@@ -748,6 +750,8 @@ type gen struct {
 	r     *rand.Rand
 	files []zg.File
 	nfile int
+
+	prevOwner *zg.Ref
 }
 
 func (g *gen) labels(n int) []hx.B {
@@ -803,6 +807,15 @@ func (g *gen) hdr(l *zg.Line) {
 
 func (g *gen) rr() zg.Line {
 	l := zg.Line{K: "rr", Owner: g.ref(true)}
+	if l.Owner.K != "omit" {
+		// one explicit owner in three is spelled exactly like the previous explicit owner (whatever happened in
+		// between: $ORIGIN, $INCLUDE, $GENERATE, ...): the same token must be completed again
+		if g.prevOwner != nil && g.r.Intn(3) == 0 {
+			l.Owner = *g.prevOwner
+		}
+		o := l.Owner
+		g.prevOwner = &o
+	}
 	g.hdr(&l)
 	rd := zg.RD{IP: hx.B{}, Nm: zg.Ref{K: "omit", N: []hx.B{}}, Txt: []hx.B{}}
 	switch l.Type {
